@@ -101,6 +101,17 @@ class Fn(object):
         return False
 
     # ---------------------------------------------------------- rendering
+    _sym = False
+
+    def show_sym(self, n):
+        """like show(), but constants are printed with the macro they were
+        spelled with (position-independent keys for reports)"""
+        self._sym = True
+        try:
+            return self.show(n)
+        finally:
+            self._sym = False
+
     def show(self, n, depth=0):
         """C-like rendering of an expression (for reports and for
         canonical comparison of clones)."""
@@ -114,6 +125,8 @@ class Fn(object):
         if k == 'ref':
             return n['name']
         if k == 'int' or k == 'char':
+            if self._sym and n.get('mn'):
+                return n['mn']
             return str(n.get('v', n.get('vs', '?')))
         if k == 'float':
             return repr(n.get('fval'))
